@@ -46,6 +46,16 @@ def sites(run: Run):
     return _SITES[run.repo]
 
 
+def c03(run: Run):
+    from . import rules_c03
+    rules_c03.check(run, program(run), cyprogram(run), sites(run))
+
+
+def c11(run: Run):
+    from . import rules_c11
+    rules_c11.check(run, program(run), cyprogram(run), sites(run))
+
+
 def c07(run: Run):
     from . import rules_c07
     rules_c07.check(run, program(run), cyprogram(run), sites(run))
@@ -63,7 +73,9 @@ def c01(run: Run):
 
 CHECKS = {
     "C01": c01,
+    "C03": c03,
     "C06": c06,
     "C07": c07,
+    "C11": c11,
     "C19": c19,
 }
